@@ -38,6 +38,8 @@ class DefaultDict(collections.UserDict):
 
     def __init__(self, *args, **kwargs):
         super().__init__(*args, **kwargs)
+        self._pending_mappings = []     # mappings passed to __call__
+        self._saved_mappings = []       # values saved by (nested) contexts
 
     def __setitem__(self, key, value):
         super().__setitem__(self._check_deprecation(key), value)
@@ -80,22 +82,26 @@ class DefaultDict(collections.UserDict):
     #
 
     def __call__(self, mapping):
-        self.saved_mapping = dict()
-        self.temp_mapping = mapping.copy()
+        self._pending_mappings.append(mapping.copy())
         return self
 
     def __enter__(self):
-        for key, val in self.temp_mapping.items():
+        temp_mapping = self._pending_mappings.pop()
+
+        # Check all keys before changing anything
+        for key in temp_mapping:
             if not key in self:
                 raise ValueError(f"unknown parameter '{key}'")
-            self.saved_mapping[key] = self[key]
+
+        # Save the current values (contexts can be nested) and set new ones
+        self._saved_mappings.append({key: self[key] for key in temp_mapping})
+        for key, val in temp_mapping.items():
             self[key] = val
         return self
 
     def __exit__(self, exc_type, exc_val, exc_tb):
-        for key, val in self.saved_mapping.items():
+        for key, val in self._saved_mappings.pop().items():
             self[key] = val
-        del self.saved_mapping, self.temp_mapping
         return None
 
 defaults = DefaultDict(_control_defaults)
